@@ -133,6 +133,8 @@ class Interp:
         self.steps = 0
         self.value_mode = value_mode      # arguments are terms of an uninterpreted value sort, not Booleans
         self.oracle = {}                  # method name -> function(interp, argument values, call node): answers for calls outside the constructor algebra
+        self.inline = False               # evaluate calls of repository functions (free functions, static helpers) that no oracle answers, with the same oracles
+        self.depth = 0
 
     order = {'x': 0, 'y': 1, 'z': 2}
 
@@ -503,6 +505,16 @@ class Interp:
         if op and ('op:' + op) in self.oracle:
             ans = self.oracle['op:' + op](self, ([self.val(e['recv'])] if e.get('recv') is not None else []) + [self.val(x) for x in args], e)
             if ans is not NotImplemented:
+                if op in ('+=', '-=', '*=', '/=') and e.get('recv') is not None:
+                    # compound assignment of a class type: the oracle computes the new value, the target keeps it
+                    tgt = path_of(e['recv'])
+                    if tgt in self.env:
+                        if isinstance(self.env[tgt], Alias):
+                            self.env[tgt].set(ans)
+                        else:
+                            self.env[tgt] = ans
+                    else:
+                        raise Unmodelled('compound assignment to %s at line %s' % (tgt, e.get('ln')))
                 return ans
         if not op and m in self.oracle:
             return self.oracle[m](self, [self.val(x) for x in args], e)
@@ -708,6 +720,18 @@ class Interp:
         # map lookups such as sortToIte[sr] / sortToEquality[sref]: the symbol of this constructor
         if m == 'operator[]' or (e.get('recv') is not None and 'sortTo' in (path_of(e['recv']) or '')):
             return ('sym', self.default_op)
+        if self.inline and self.depth < 3 and e.get('id') in self.fx.F and self.fx.F[e['id']].get('body') and e.get('recv') is None and not e.get('virt'):
+            g = self.fx.F[e['id']]
+            if len(g['params']) == len(args):
+                sub = Interp(self.fx, g, self.default_op, self.ctor_eval, self.value_mode)
+                sub.oracle, sub.inline, sub.depth = self.oracle, True, self.depth + 1
+                env = {p_['n']: self.val(a_) for p_, a_ in zip(g['params'], args)}
+                for k_, v_ in self.env.items():
+                    if k_ not in env and not k_.startswith('this.') and isinstance(v_, tuple):
+                        env.setdefault(k_, v_)          # named constants handed to the outer evaluation
+                out = sub.run_env(env)
+                self.steps += sub.steps
+                return out
         raise Unmodelled('call %s at line %s' % (callee(e) or m, e.get('ln')))
 
 
